@@ -33,6 +33,7 @@ def search(ctx, focus=(), deep=1):
         specs = protos.param_specs(d)
         n = (12 if not ctx.thorough else 120) * (8 if d.name in focus else 1) * deep
         cases = [f['witness']['input'] for f in known if f.get('site') == d.name and isinstance(f.get('witness', {}).get('input'), dict)]
+        cases += protos.corner_params(d)
         if d.name in focus:
             # source of this protocol changed (or its obligation failed): every PAIR of parameters exhaustively
             # (others random), capped per pair
@@ -89,6 +90,33 @@ def search(ctx, focus=(), deep=1):
             if v != p:
                 diff = sorted(k for k in p if v.get(k) != p[k])
                 ctx.violation(d.name, 'aliased', '%s %s decodes as %s' % (d.name, p, {k: v[k] for k in diff}), dict(F, differs=diff), input=p)
+    # one encoder object PER REQUEST, protocols interleaved in a shuffled schedule: the result must not depend on which
+    # encoder objects lived (and died) before -- state kept outside the instance (module/class level caches keyed by
+    # object identity, shared tables) only shows up this way
+    sched = []
+    for d in protos.all_decoders():
+        if d.name == 'Universal':
+            continue
+        for _ in range((24 if not ctx.thorough else 120) * deep):
+            sched.append((d, protos.sample_params(d, r, bias=0.5)))
+    r.shuffle(sched)
+    for d, p in sched:
+        F = dict(protocol=d.name, **p)
+        try:
+            enc = d.__class__()
+            code = protos.encode(enc, p)
+            del enc
+        except Exception:
+            continue            # refusals / encoder exceptions are judged by the main loop above
+        ctx.count((d.name, 'fresh-encoder', tuple(sorted(p.items()))))
+        got, errs = first_code(protos, d, code)
+        if got is None:
+            ctx.violation(d.name, 'undecodable', '%s %s (encoder object created for this request): own first frame group is not decoded (%s)' % (d.name, p, errs[-3:]), dict(F, err=errs[-1] if errs else None), input=p)
+            continue
+        v = protos.view(got, list(p))
+        if v != p:
+            diff = sorted(k for k in p if v.get(k) != p[k])
+            ctx.violation(d.name, 'aliased', '%s %s (encoder object created for this request) decodes as %s' % (d.name, p, {k: v[k] for k in diff}), dict(F, differs=diff), input=p)
     ctx.sample({'protocol': 'NEC', 'params': {'device': 1, 'sub_device': 2, 'function': 3}})
 
 
